@@ -527,6 +527,21 @@ func oneHistory(g *hc.Gen, o *hc.Out, scratch, bin string, h int) {
 			}
 			return fmt.Sprintf("`f%d.csv`", p)
 		}
+		// in a FROM clause the same file can also be named by a table object or a table identification function:
+		// it is still the transaction's one cached table
+		tq := func(p int) string {
+			switch g.Intn(12) {
+			case 0:
+				return fmt.Sprintf("URL::('file:./f%d.csv')", p)
+			case 1:
+				return fmt.Sprintf("FILE::('./f%d.csv')", p)
+			case 2:
+				return fmt.Sprintf("CSV(',', `f%d.csv`)", p)
+			case 3:
+				return fmt.Sprintf("FILE::('f%d.csv')", p)
+			}
+			return tn(p)
+		}
 		steps := 3 + g.Intn(14)
 		for s := 0; s < steps; s++ {
 			p := g.Intn(nFiles)
@@ -552,7 +567,7 @@ func oneHistory(g *hc.Gen, o *hc.Out, scratch, bin string, h int) {
 			switch c := g.Intn(20); {
 			case c < 5:
 				pickFile(true)
-				line, sql = fmt.Sprintf("c01.select %d", p), fmt.Sprintf("SELECT v FROM %s", tn(p))
+				line, sql = fmt.Sprintf("c01.select %d", p), fmt.Sprintf("SELECT v FROM %s", tq(p))
 			case c < 7 && g.Intn(3) == 0:
 				// FOR UPDATE reaches every table of the FROM clause
 				pickFile(true)
@@ -585,7 +600,7 @@ func oneHistory(g *hc.Gen, o *hc.Out, scratch, bin string, h int) {
 				}
 			case c < 7:
 				pickFile(true)
-				line, sql = fmt.Sprintf("c01.selectfu %d", p), fmt.Sprintf("SELECT v FROM %s FOR UPDATE", tn(p))
+				line, sql = fmt.Sprintf("c01.selectfu %d", p), fmt.Sprintf("SELECT v FROM %s FOR UPDATE", tq(p))
 				if tr.exists[p] {
 					tr.locked[p] = true
 				}
